@@ -82,6 +82,11 @@ CHECKS = {
          "Fresh messages read proto3 defaults and encode to nothing; on every state the set of field numbers on the wire must equal the set of fields the value model calls set, betterproto's own presence report (is None, is_set, which_one_of, serialized_on_wire) must agree, and after decoding it must equal the reference's HasField/WhichOneof on the same bytes.",
          "universe and alphabets as C01; JSON-model dicts for the from_dict route are validated against json_format",
          "DESIGN.md §4 C06"),
+ "C12": ("model_checking",
+         "stateless depth-first exploration of all event-loop schedules (exact-asyncio semantics: FIFO iterations; continue/yield/park at driver points; release and timer firing at iteration boundaries) of small AsyncChannel configurations on the real asyncio.Queue/Task/wait_for under a virtual loop, with iterative deviation bounding",
+         "40+ configurations (1-2 senders x 1-3 items via send / send_from / async sources, 1-3 receivers via receive(), async-for and the library's ServiceStub._send_messages, closer, unbounded and bounded buffers, cancellation or timeout of one receiver at any point). The small ones are enumerated completely, the rest up to a stated number of deviations from the default schedule. Every complete execution is judged: nothing invented or duplicated, per-sender order, everything sent before close received exactly once (or obtainable by a fresh receiver after a cancellation), no stranded receiver, later sends rejected, cancellation/timeout surfacing as such, no stray exception.",
+         "schedules a real FIFO asyncio loop cannot produce are excluded by construction; OS threads are out of scope",
+         "DESIGN.md §4 C12"),
 }
 
 NOT_APPLICABLE_REASON = "check not built yet in this session; see DESIGN.md for the planned bounded-exhaustive exploration"
